@@ -453,6 +453,8 @@ def shell_desc(rng, models=None, cone=None, mmax=4, nmax=3, springs=True):
     if cone is None:
         cone = rng.random() < 0.5
     d['alphadeg'] = float(rng.uniform(0.5, 60)) if cone else 0.0
+    if cone and rng.random() < 0.12:
+        d['alphadeg'] = float(10 ** rng.uniform(-6, -0.4))      # very shallow cones: still cones (no tolerance may turn them into cylinders)
     r2 = logu(rng, 0.05, 2)
     L = r2 * logu(rng, 0.3, 4)
     d['r2'] = r2; d['L'] = L
